@@ -395,7 +395,8 @@ func runC27(c *fw.Ctx) {
 	c.Assume("git 2.39.5 status is the reference; git's type-change code T is read as M (go-git's StatusCode has no T); rename pairing is off (--no-renames); states with stat data matching a same-size different-content file are only produced with index mtime == file mtime (the racy case), never with an older file (that state needs utimes forgery)")
 
 	var fails hFailures
-	c.ParDo(len(cases), 0, func(i int) {
+	c.ParDo(len(cases), 0, func(k int) {
+		i := hSpread(k, len(cases))
 		v := cases[i]
 		gitM, goM, goErr := e.run(v)
 		c.Eval()
